@@ -259,4 +259,25 @@ theorem utf8Split_none_append {d : Bytes} (h : utf8Split d = none) (y : Bytes) :
     have h2 : u8Run {} (d ++ y) = none := by rw [u8Run_append, this]
     rw [k1.mpr h2]
 
+/-- complete valid UTF-8 -/
+def V (a : Bytes) : Prop := u8Run {} a = some {}
+
+theorem V_nil : V [] := rfl
+
+theorem V_append {a b : Bytes} (ha : V a) (hb : V b) : V (a ++ b) := by
+  unfold V at *
+  rw [u8Run_append, ha]
+  exact hb
+
+theorem V_of_append_left {a b : Bytes} (hab : V (a ++ b)) (ha : V a) : V b := by
+  unfold V at *
+  rw [u8Run_append, ha] at hab
+  exact hab
+
+theorem V_utf8Split {d a p : Bytes} (h : utf8Split d = some (a, p)) : V a := (utf8Split_spec h).1
+
+theorem utf8Split_of_V {d : Bytes} (h : V d) : utf8Split d = some (d, []) := by
+  have := utf8Split_prefix d [] h
+  simpa [utf8Split, utf8Scan, utf8Go] using this
+
 end Rio.Filter
